@@ -9,4 +9,5 @@ CONSTANTS
   TypesOnly = FALSE
   CallsOnly = TRUE
   Rich = TRUE
+  Inplace = FALSE
 CHECK_DEADLOCK FALSE
